@@ -38,6 +38,7 @@ SEQUENTIAL = ["tensorly.decomposition._tt.tensor_train", "tensorly.decomposition
 
 def run(ctx: Ctx):
     res = ctx.res
+    res.rule("SCALE-FREE-TEST", "dimensional analysis: inside TT-SVD, TR-SVD and HOOI no order comparison sets a quantity that carries the unit of the data (singular values, their squares, norms) against a fixed number (machine epsilon, 1e-10): the outcome of such a test -- which directions are kept -- would change when the input is rescaled, and exactness at sufficient rank would hold only for data of 'ordinary' magnitude", floor=3)
     res.rule("OUTPUT-DEGREE", "dimensional analysis: the tensor represented by the output of TT-SVD, TR-SVD (mode 0) and HOOI is homogeneous of degree 1 in the input tensor; all TT / TR cores but the last and all Tucker factors have degree 0 (orthonormal blocks carry no scale), the last core / the Tucker core degree 1", floor=6)
     res.rule("RANK-CLIPPED", "every sequential SVD in tensor_train / tensor_ring requests min(rows, columns, requested rank) components and stores that number back as the rank; TR's first SVD is guarded by a test against min(rows, columns)", floor=3)
     res.assume(
@@ -69,6 +70,15 @@ def output_degree(ctx: Ctx):
         ev = Evaluator(ctx, f, {})
         ev.ctx_returns = dict(rets)
         ev.run(env)
+        # SCALE-FREE-TEST: no order comparison of a quantity carrying the data's unit with a fixed number
+        fixed_cmp = [(n_, m_) for n_, m_ in ev.problems if "is compared with the fixed number" in m_]
+        res.instance("SCALE-FREE-TEST", f"{label}: order comparisons against fixed numbers", sample={"found": [src(n_)[:60] for n_, _ in fixed_cmp], "ok": not fixed_cmp})
+        seen_cmp = set()
+        for n_, m_ in fixed_cmp:
+            if id(n_) in seen_cmp:
+                continue
+            seen_cmp.add(id(n_))
+            ctx.finding("SCALE-FREE-TEST", f, n_, f"[{label}] `{src(n_)[:80]}`: {m_}. Which singular directions / components are kept then depends on the scale of the input: for data of small magnitude genuine components fall under the fixed threshold and the decomposition is no longer exact at sufficient rank. Compare with a multiple of the largest singular value (or of the data norm) instead", construct=f"{f.name}: absolute threshold {src(n_)[:50]}")
         # SVD-OF-UNFOLDING: what is factorised is the (projected) data itself, of degree 1 -- not its Gram matrix
         seen_svd = set()
         for call_node, d_arg in ev.svd_args:
